@@ -96,6 +96,36 @@ CLAIMED = {
                 note=KERNEL_NOTE + "; A-LIB np.histogram/percentile; empirical distributions are not provable by this technique", technique=TECH_B),
 }
 
+
+# ---- additions of the last build session (DESIGN 7.3): appended to the claims above
+_ADD = {
+    "C01": " Frame bookkeeping of cal_angle.py proved modularly on real chains (callees opaque): cal_chain_boost nests the rest-frame boosts along the path from the frame the event is given in; "
+           "cal_helicity_angle's frame matrices are the path products r_j (b_m r_m)...; alignment matrices are selected by helicity VALUE for an arbitrary D tensor.",
+    "C02": " Proved on the real code in addition: frame matrices of cal_helicity_angle as path products over all ancestors; the ALIGNMENT STEP of cal_angle_from_particle hands get_euler_angle exactly "
+           "b_ref r_ref inv(r_c) inv(b_c) with ONE reference chain per final particle (first chain producing it from the top, else the first chain) for every chain order of the catalogue "
+           "(that a common reference rotation leaves the density unchanged is A-MATH).",
+    "C03": " set_used_res / set_used_chains store each selected chain exactly once (proved on the 5 structures).",
+    "C04": " cal_chain_boost proved to boost the top decay's daughters into the parent rest frame as well (moving parent), nested along the path.",
+    "C05": " The cached_int likelihood (ModelCachedInt.nll_grad_batch / nll_grad_hessian, opt_int.sum_gradient) is PROVED equal to the default formula incl. clip_log, with gradient and Hessian.",
+    "C06": " cfit / cfit_extended value formulas (documented signal/background mixture, extended term) proved at lengths 1, 2; ModelCfitExtended value == what its gradient path returns.",
+    "C07": " Also proved: ModelCfitExtended (gradient, Hessian incl. the extended term) and ModelCachedInt (gradient, Hessian through the nested tapes).",
+    "C08": " The write-back primitives of a fit step (VarsManager.set_trans_var / set_all / set / get / get_all_val with a bounded parameter at any position; standard_complex with tie groups) are proved on symbolic values.",
+    "C09": " FitFractions.get_frac / __iter__ / get_frac_diag_sum: error^2 == g V g for the covariance in force at each query (re-assigned attribute, explicit argument) proved.",
+    "C10": " Acceptance weight <= 1 PROVED for n = 3, 4 (5 thorough) bodies and all masses with open channels: monotonicity lemmas on the real get_p + modular proof of set_decay / get_weight; "
+           "cal_max_weight: the optimiser's objective is the weight used afterwards (modular runtime contract, optimiser replaced by a recorder).",
+    "C11": " cal_chain_boost (rest-frame momenta nested along the decay path) proved on real chains with rest_vector opaque.",
+    "C12": " get_D_matrix_lambda / Dfun_delta_v2 select by helicity value for an ARBITRARY D tensor and every ordering / sub-list of helicities (2j <= 6).",
+    "C16": " VarsManager fit coordinates (set_trans_var, set_all list/dict, set, get, get_all_val) proved on symbolic values with a bounded parameter at every position and a fixed parameter in the frame.",
+    "C18": " load_dat_file's file -> particle index map proved on symbolic file contents (.dat/.npy/.npz, 1-3 files, every split of the particles; sizes bounded).",
+    "C20": " BWGenerator (density, antiderivative, CDF inverse, range) proved for all parameters; multi_sampling / single_sampling2 / GenTest.generate return EXACTLY N events for all N >= 1 "
+           "(loop VCs after a mechanical inlining of the generator).",
+}
+for _k, _v in _ADD.items():
+    CLAIMED[_k]["text"] += _v
+CLAIMED["C20"]["technique"] = TECH_S + "; AST verification conditions (z3 LIA); " + TECH_B
+CLAIMED["C08"]["technique"] = "typed resolution check from the AST; " + TECH_S + "; " + TECH_B
+CLAIMED["C18"]["technique"] = "AST verification conditions (z3 LIA); symbolic execution of the real loader on symbolic file contents; " + TECH_B
+
 NOT_YET = "check not built yet in this round (see DESIGN.md section 5 for the construction order)"
 
 
